@@ -1074,9 +1074,10 @@ def rotation_words(run, rule='R12'):
             continue
         seen.add(names)
         w = None
+        from ..cfg import pure_locals, _subst_pure
         for st in body:
             if isinstance(st, (ast.Assign, ast.Return)) and st.value is not None:
-                w = _rot_word(cx, canon(cx.fi, st.value, inline=False), 'angles')
+                w = _rot_word(cx, canon(cx.fi, _subst_pure(st.value, pure_locals(f.node, keep=('angles',))), inline=False), 'angles')
         label = '/'.join(sorted(names))
         if w is None:
             run.error('R12: rpy2r branch %s: not a product of rotx/roty/rotz(angles[i])' % label)
@@ -1094,7 +1095,8 @@ def rotation_words(run, rule='R12'):
                                           'scalar call form does not pack [roll, pitch, yaw] in this order', f=f)
     ce = Ctx(run, 'base/transforms3d:eul2r')
     r = _single_return_value(ce)
-    w = _rot_word(ce, canon(ce.fi, r.value, inline=False), 'angles') if r is not None else None
+    from ..cfg import pure_locals, _subst_pure
+    w = _rot_word(ce, canon(ce.fi, _subst_pure(r.value, pure_locals(ce.f.node, keep=('angles',))), inline=False), 'angles') if r is not None else None
     want = [('z', 0), ('y', 1), ('z', 2)]
     if w is None:
         run.error('R12: eul2r: return is not a product of rotations of angles[i]')
@@ -1209,7 +1211,7 @@ def _frame(run, key, o, a, ret_plain):
 
 def _frame_diagnose(run, cx, key, e, want_R, r):
     nm = Normaliser(rename=cx.rename)
-    b = matches('stack((_C0, _C1, _C2), axis=_AX)', e)
+    b = matches('stack((_C0, _C1, _C2), axis=_AX)', e) or matches('stack([_C0, _C1, _C2], axis=_AX)', e)
     if b is None:
         run.error('R16: %s: result is not stack((c0, c1, c2), axis=1): %s' % (key, src(e, 70)))
         return
@@ -1246,6 +1248,16 @@ def _enclosing_block(fnode, target):
     return best
 
 
+def _rt2tr_product(e):
+    """bindings _R, _V, _T of rt2tr(R, V @ t); the product may be spelt V.dot(t) / dot(V, t) (V is then compared with the matrix
+    closed form, so the matrix reading of dot is the one checked)"""
+    for pat in ('rt2tr(_R, _V @ _T)', 'rt2tr(_R, _V.dot(_T))', 'rt2tr(_R, dot(_V, _T))'):
+        b = matches(pat, e)
+        if b is not None:
+            return b
+    return None
+
+
 def _trexp(run):
     for key, n, rod_w in (('base/transforms3d:trexp', 3, 'tw[3:6]'), ('base/transforms2d:trexp2', 2, 'tw[2]')):
         cx = Ctx(run, key)
@@ -1253,7 +1265,7 @@ def _trexp(run):
         fi = cx.fi
         target = None
         for r in own_returns(f.node):
-            if r.value is not None and matches('rt2tr(_R, _V @ _T)', canon(fi, r.value, inline=False)) is not None:
+            if r.value is not None and _rt2tr_product(canon(fi, r.value, inline=False)) is not None:
                 target = r
         if target is None:
             run.error('R16: %s: no `rt2tr(R, V @ t)` return' % key)
@@ -1269,7 +1281,10 @@ def _trexp(run):
         if len(rets) != 1:
             run.error('R16: %s: cannot evaluate the se(%d) branch symbolically' % (key, n))
             continue
-        b = matches('rt2tr(_R, _V @ _T)', rets[0])
+        b = _rt2tr_product(rets[0])
+        if b is None:
+            run.error('R16: %s: the se(%d) return lost its rt2tr(R, V @ t) form under evaluation' % (key, n))
+            continue
         nm = Normaliser()
         nm.scalars = {'theta'}
         try:
@@ -1396,13 +1411,26 @@ def _prod(run):
     g = run.prog.func('twist:SMTwist.prod')
     gi = FuncInfo.of(g)
     txt = [canon(gi, st, inline=False) if isinstance(st, ast.expr) else st for st in body_nodoc(g.node)]
-    ok = False
-    for st in body_nodoc(g.node):
-        if isinstance(st, ast.For) and matches('self.data[1:]', st.iter) is not None and len(st.body) == 1 and \
-                isinstance(st.body[0], ast.Assign) and matches('twprod @ exp(%s)' % st.target.id, st.body[0].value) is not None:
-            ok = True
-    (run.holds if ok else run.violation)('R15', g.key, 'fold', 'twist product multiplies exp of each element left to right' if ok else
-                                         'twist prod is not a left-to-right fold of exp(tw)', f=g)
+    # every loop over the elements (one per dimension branch once the exp / log aliases are put in place) folds acc = acc @ exp(tw)
+    loops = [st for st in own_walk(g.node) if isinstance(st, ast.For) and matches('%s.data[1:]' % g.selfname, st.iter) is not None]
+    ok = bool(loops)
+    for st in loops:
+        good = False
+        if len(st.body) == 1 and isinstance(st.body[0], ast.Assign) and isinstance(st.body[0].targets[0], ast.Name) and isinstance(st.target, ast.Name):
+            acc_, T = st.body[0].targets[0].id, st.target.id
+            v = canon(gi, st.body[0].value, inline=False)
+            for ex in ('exp', 'trexp', 'trexp2'):
+                if matches('%s @ %s(%s)' % (acc_, ex, T), v) is not None:
+                    good = True
+                if matches('%s(%s) @ %s' % (ex, T, acc_), v) is not None:
+                    run.violation('R15', g.key, 'fold order', 'twist prod multiplies each new exponential on the LEFT: the product is taken in reverse order', f=g, node=st)
+                    return
+        ok = ok and good
+    if not loops:
+        run.error('R15: SMTwist.prod: no loop over self.data[1:]')
+    else:
+        (run.holds if ok else run.violation)('R15', g.key, 'fold', 'twist product multiplies exp of each element left to right' if ok else
+                                             'twist prod is not a left-to-right fold of exp(tw)', f=g)
 
 
 # =========================================================================== C19 Pluecker / plane conventions
@@ -1524,18 +1552,20 @@ def tables_c19(run):
     # SE3 premultiplication block [[R, skew(-t) R], [0, R]]
     cr = Ctx(run, 'geom3d:Plucker.__rmul__')
     A = None
+    from ..cfg import pure_locals, _subst_pure
+    env = pure_locals(cr.f.node, keep=('A',))
     for st in own_walk(cr.f.node):
         if isinstance(st, ast.Assign) and isinstance(st.targets[0], ast.Name) and st.targets[0].id == 'A':
-            A = canon(cr.fi, st.value, inline=False)
+            A = canon(cr.fi, _subst_pure(st.value, env), inline=False)
     if A is None:
         run.error('R16: Plucker.__rmul__: no A = ... block')
     else:
-        b = matches('r_[c_[_A, _B], c_[_C, _D]]', A)
-        if b is None:
-            run.error('R16: Plucker.__rmul__: A is not r_[c_[.,.], c_[.,.]]')
+        rows = block_rows(A)
+        if rows is None or len(rows) != 2 or any(len(r_) != 2 for r_ in rows):
+            run.error('R16: Plucker.__rmul__: A is not a 2x2 block matrix (r_[c_[.,.], c_[.,.]] / vstack of hstacks / block)')
         else:
             nmr = Normaliser()
-            got = [[nmr.poly(b['_A']), nmr.poly(b['_B'])], [nmr.poly(b['_C']), nmr.poly(b['_D'])]]
+            got = [[nmr.poly(x) for x in r_] for r_ in rows]
             want = [[nmr.poly(parse_expr(x)) for x in row] for row in [['left.R', 'skew(-left.t) @ left.R'], ['zeros((3, 3))', 'left.R']]]
             bad = compare_tables(got, want)
             if bad:
@@ -1548,6 +1578,49 @@ def tables_c19(run):
     check_expr_fn(run, 'geom3d:Plucker.__mul__', 'reciprocal product', 'dot(SELF.uw, P0.v) + dot(P0.uw, SELF.v)')
     # Twist3.line
     check_routes(run, [('twist:Twist3.line', 'line of action: Plucker(-v - pitch w, w)', ['Plucker([Plucker(-tw.v - tw.pitch() * tw.w, tw.w) for tw in self])'], 'return')], rule=RULE)
+
+
+def block_rows(e):
+    """rows of blocks of a block-matrix display over 2-D blocks: r_[c_[a, b], c_[c, d]], vstack((hstack((a, b)), hstack((c, d)))),
+    block([[a, b], [c, d]]), concatenate((concatenate((a, b), axis=1), ...), axis=0)  ->  [[a, b], [c, d]]  (canonical ASTs), else None"""
+    def seq(x):
+        return list(x.elts) if isinstance(x, (ast.Tuple, ast.List)) else None
+
+    def call(x, names):
+        return isinstance(x, ast.Call) and isinstance(x.func, ast.Name) and x.func.id in names
+
+    def axis_of(x, default):
+        for k in x.keywords:
+            if k.arg == 'axis' and isinstance(k.value, ast.Constant):
+                return k.value.value
+        if len(x.args) == 2 and isinstance(x.args[1], ast.Constant):
+            return x.args[1].value
+        return default
+
+    def row(x):
+        if isinstance(x, ast.Subscript) and isinstance(x.value, ast.Name) and x.value.id == 'c_':
+            return seq(x.slice)
+        if call(x, ('hstack',)) and len(x.args) == 1:
+            return seq(x.args[0])
+        if call(x, ('concatenate',)) and x.args and axis_of(x, 0) in (1, -1):
+            return seq(x.args[0])
+        return None
+    rows = None
+    if isinstance(e, ast.Subscript) and isinstance(e.value, ast.Name) and e.value.id == 'r_':
+        rows = seq(e.slice)
+    elif call(e, ('vstack',)) and len(e.args) == 1:
+        rows = seq(e.args[0])
+    elif call(e, ('concatenate',)) and e.args and axis_of(e, 0) == 0:
+        rows = seq(e.args[0])
+    elif call(e, ('block',)) and len(e.args) == 1:
+        rr = seq(e.args[0])
+        if rr and all(seq(x) for x in rr):
+            return [seq(x) for x in rr]
+        return None
+    if not rows:
+        return None
+    out = [row(x) for x in rows]
+    return out if all(out) else None
 
 
 def _plucker_ctor(run, key, want, desc):
@@ -1922,30 +1995,46 @@ def tables_c14(run):
                                   ('base/vectors:unittwist2', 2, 'P0[2]', 'iszero', 'abs'), ('base/vectors:unittwist2_norm', 2, 'P0[2]', 'iszero', 'abs')):
         cx = Ctx(run, key)
         f = cx.f
-        fi = cx.fi
-        sel = None
-        for st in own_walk(f.node):
-            if isinstance(st, ast.If) and st.orelse:
-                t = canon(fi, st.test)
-                if matches('%s(_W)' % zf, t) is not None or matches('%s(_W, *_X)' % zf, t) is not None:
-                    a = [canon(fi, s.value) for s in st.body if isinstance(s, ast.Assign)]
-                    b = [canon(fi, s.value) for s in st.orelse if isinstance(s, ast.Assign)]
-                    sel = (t, a, b)
-        S = f.params[0]
-        if sel is None:
-            run.error('R16: %s: selector if/else not found' % key)
-            continue
-        t, a, b = sel
         nm = Normaliser(rename=cx.rename)
-        w_ok = nm.poly(t.args[0]) == Normaliser().poly(parse_expr(wsel))
-        a_ok = a and nm.poly(a[0]) == Normaliser().poly(parse_expr('norm(P0[0:%d])' % nv))
-        b_ok = b and nm.poly(b[0]) == Normaliser().poly(parse_expr('%s(%s)' % (nf, wsel)))
-        for nm_, ok, msg in (('selector', w_ok, 'tests the rotational part %s' % wsel), ('irrotational scale', a_ok, 'theta = norm(v) when the rotational part is zero'),
-                             ('rotational scale', b_ok, 'theta = %s(w) otherwise' % nf)):
-            (run.holds if ok else run.violation)(RULE, key, nm_, msg if ok else msg + ' -- NOT the case', f=f)
-        rets = [canon(fi, r.value, inline=False) for r in own_returns(f.node) if r.value is not None]
-        okr = any(matches('%s / th' % S, e) is not None or matches('(%s / th, th)' % S, e) is not None for e in rets)
-        (run.holds if okr else run.violation)(RULE, key, 'scaled twist', 'returns S / theta' if okr else 'does not return S / theta', f=f)
+        w_want = Normaliser().poly(parse_expr(wsel))
+        scale = {True: Normaliser().poly(parse_expr('norm(P0[0:%d])' % nv)), False: Normaliser().poly(parse_expr('%s(%s)' % (nf, wsel)))}
+        seen = {}
+        bad = False
+        for (r, val, conds) in sl_eval(cx, with_conds=True):
+            if isinstance(val, ast.Constant) and val.value is None:
+                continue
+            if isinstance(val, ast.Tuple) and all(isinstance(x, ast.Constant) and x.value is None for x in val.elts):
+                continue
+            conds = [(_StripNorm().visit(_copy.deepcopy(c)), p_) for (c, p_) in conds]      # S = getvector(S, n) is the argument itself
+            # the selector test on this path: zf(<rotational part>)
+            pol = None
+            for (c, p_) in conds:
+                b = matches('%s(_W)' % zf, c) or matches('%s(_W, *_X)' % zf, c)
+                if b is not None and nm.poly(b['_W']) == w_want:
+                    pol = p_
+            if pol is None:
+                sels = [c for (c, p_) in conds if matches('%s(_W)' % zf, c) is not None or matches('%s(_W, *_X)' % zf, c) is not None]
+                whole = Normaliser().poly(parse_expr('P0'))
+                sels = [c for c in sels if nm.poly((matches('%s(_W)' % zf, c) or matches('%s(_W, *_X)' % zf, c))['_W']) != whole]
+                if sels:
+                    run.violation(RULE, key, 'selector', 'the scale is selected by %s, not by a zero test of the rotational part %s' % (src(sels[-1], 40), wsel), f=f, node=r)
+                    bad = True
+                continue
+            parts = list(val.elts) if isinstance(val, ast.Tuple) else [val]
+            want = Normaliser().poly(parse_expr('P0')) * Poly.atom('inv(%s)' % str(scale[pol]))
+            got = nm.poly(parts[0])
+            label = 'irrotational scale' if pol else 'rotational scale'
+            msg = 'theta = norm(v) when the rotational part is zero' if pol else 'theta = %s(w) otherwise' % nf
+            ok = got == nm.poly(parse_expr('P0 / (%s)' % ('norm(P0[0:%d])' % nv if pol else '%s(%s)' % (nf, wsel))))
+            seen[pol] = True
+            run.holds(RULE, key, 'selector (%s path)' % ('zero' if pol else 'non-zero'), 'the path is selected by %s(%s), the rotational part' % (zf, wsel), f=f, node=r)
+            if ok and (len(parts) == 1 or nm.poly(parts[1]) == scale[pol]):
+                run.holds(RULE, key, label, msg + '; returns S / theta', f=f, node=r)
+            else:
+                run.violation(RULE, key, label, msg + ' -- NOT the case: the path returns %s' % ', '.join(str(nm.poly(x)) for x in parts), f=f, node=r)
+                bad = True
+        if not bad and set(seen) != {True, False}:
+            run.error('R16: %s: selector if/else not found (value paths under %s(%s): %s)' % (key, zf, wsel, sorted(seen)))
     # angdiff: mod(x + pi, 2 pi) - pi with x = a or a - b
     cx = Ctx(run, 'base/vectors:angdiff')
     got = {str(Normaliser(rename=cx.rename).poly(e)) for (r, e) in sl_eval(cx)}
